@@ -541,7 +541,10 @@ OnRun(m, o) ==
         lateWhy == IF tainted THEN F1Why ELSE "a delivery was processed before an earlier one from the same run to the same system"
         m6b == IF late THEN V2(m6a, "C12", "C09", lateWhy) ELSE m6a
         \* the exchange of data between two pending deliveries is only invisible while order is respected
-        m6 == IF late /\ swap THEN V(m6b, "C03", IF tainted THEN F1Why ELSE "a run showed the data of a later delivery of the same sender while the earlier one was still pending") ELSE m6b
+        m6c == IF late /\ swap THEN V(m6b, "C03", IF tainted THEN F1Why ELSE "a run showed the data of a later delivery of the same sender while the earlier one was still pending") ELSE m6b
+        \* ... and the payload it shows is then released while the run scheduled to read it has yet to happen
+        m6 == IF late /\ swap /\ ~tainted /\ c.kind \in {"bc", "eev", "sysev"}
+              THEN V(m6c, "C05", "a payload was read and released by an earlier delivery's run while the run scheduled to read it was still pending") ELSE m6c
         m7 == IF \E x \in Elems(o.view) : x[1] = "se2" THEN V(m6, "C04", "a system event was taken twice") ELSE m6
         \* entity world reactor: local data of the reacting entity
         isEW == m.neworld > 0 /\ o.sys = EWSys(m)
@@ -576,7 +579,7 @@ OnDiscard(m, o) ==
     IF o.k \notin DOMAIN m.cmd THEN V(m, "C00", "discard of an unknown command") ELSE
     LET c == m.cmd[o.k]
         m1 == Chk(m, c.st = "postponed", "C02", "a command that was not postponed was discarded")
-        m2 == Chk(m1, c.s \notin m.alive, "C02", "a postponed command was discarded although its target system exists")
+        m2 == IF c.s \in m.alive THEN V2(m1, "C02", "C09", "a postponed command was discarded although its target system exists") ELSE m1
     IN ReleaseReader(SetCmd(m2, o.k, "discarded"), c)
 
 OnExit(m, o) ==
@@ -715,6 +718,16 @@ OnQuiesce(m, o) ==
         m14 == Chk(m13, m.neworld = 0 \/ elok, "C16", "entity world reactor local data present/absent against its triggers")
     IN [m14 EXCEPT !.drvlast = 0]
 
+(* a panic that escaped from a driver step: the tree did not run to completion, whatever it held is never released *)
+OnPanic(m, o) ==
+    IF o.runaway = 1 THEN V(m, "C02", "the reaction tree did not terminate (event limit exceeded)") ELSE
+    LET m1 == V(m, "C18", "panic inside the framework")
+        unfinished == \E k \in DOMAIN m.cmd : m.cmd[k].st \in {"reached", "postponed", "replaying", "running"}
+        m2 == IF unfinished \/ Len(m.owed) > 0 THEN V(m1, "C02", "the reaction tree was cut short by a panic inside the framework") ELSE m1
+        unrel == \E p \in DOMAIN m.pay : ~m.pay[p].dropped
+        m3 == IF unrel THEN V(m2, "C05", "an event payload was never released: the tree was cut short by a panic inside the framework") ELSE m2
+    IN m3
+
 MonStep(m, o) ==
     CASE o.t = "cfg" -> OnCfg(m, o)
       [] o.t = "drv" -> m
@@ -743,8 +756,7 @@ MonStep(m, o) ==
       [] o.t = "sysdrop" -> OnSysdrop(m, o)
       [] o.t = "oncedespawn" -> OnOnceDespawn(m, o)
       [] o.t = "quiesce" -> OnQuiesce(m, o)
-      [] o.t = "panic" -> IF o.runaway = 1 THEN V(m, "C02", "the reaction tree did not terminate (event limit exceeded)")
-                          ELSE V(m, "C18", "panic inside the framework")
+      [] o.t = "panic" -> OnPanic(m, o)
       [] OTHER -> V(m, "C00", "unknown record")
 
 MonSeq(m, s) == FoldSeq(MonStep, m, s)
